@@ -1,11 +1,11 @@
 (* C12 — proofs about the option-parametrised model Deps/ImportsOpt.v:
    - for the default options and projects without wildcard re-exports it IS the model Deps/Imports.v;
    - FollowRelative = false is the same as analysing the files without their relative import statements;
-   - IncludeStdLib / IncludeThirdParty change nothing in the graph of a project in which every directory
-     that holds a module has an __init__.py (the graph has project modules only), and a witness that they do
-     change it for a namespace package (F62). *)
+   - IncludeThirdParty changes nothing in the graph of any project, IncludeStdLib nothing in the graph of a project in
+     which every directory that holds a module has an __init__.py (the graph has project modules only); the former
+     witness of F62 (a namespace package analysed with the options of `pyscn check`) now has Python's graph. *)
 From Coq Require Import NArith List Bool Arith Lia.
-From PV Require Import Deps.PyImport Deps.Imports Deps.ImportsOpt Deps.ImportsOptRun Deps.ImportsProofs Deps.ImportsAgree Gen.ImportsConst.
+From PV Require Import Deps.PyImport Deps.Imports Deps.ImportsWf Deps.ImportsOpt Deps.ImportsOptRun Deps.ImportsProofs Deps.ImportsAgree Gen.ImportsConst.
 Import ListNotations.
 
 Lemma fold_left_ext : forall {A B} (f g : A -> B -> A) l a,
@@ -81,7 +81,7 @@ Qed.
 Lemma analyzeModuleDependencies_o_default : forall pr g m, star_free pr = true ->
   analyzeModuleDependencies_o default_opts pr g m = analyzeModuleDependencies pr g m.
 Proof.
-  intros. unfold analyzeModuleDependencies_o, analyzeModuleDependencies.
+  intros. unfold analyzeModuleDependencies_o, analyzeModuleDependencies. destruct (shadowed pr m); [reflexivity|].
   apply fold_left_ext. intros. apply analyze_import_o_default; assumption.
 Qed.
 
@@ -117,6 +117,7 @@ Lemma module_rel_off : forall o pr m g, o_rel o = false ->
   analyzeModuleDependencies_o o pr g m = analyzeModuleDependencies_o (set_rel o) pr g (strip_rel m).
 Proof.
   intros o pr m g Ho. unfold analyzeModuleDependencies_o, collectModuleImports.
+  change (shadowed pr (strip_rel m)) with (shadowed pr m). destruct (shadowed pr m); [reflexivity|].
   change (m_imports (strip_rel m)) with (filter (fun s => negb (is_rel s)) (m_imports m)).
   revert g. induction (m_imports m) as [|s l IH]; intros g; [reflexivity|].
   cbn [flat_map filter]. rewrite fold_left_app.
@@ -153,7 +154,8 @@ Qed.
 
 Lemma analyzeModuleDependencies_o_nodes : forall o pr g m, g_nodes (analyzeModuleDependencies_o o pr g m) = g_nodes g.
 Proof.
-  intros. unfold analyzeModuleDependencies_o. generalize (collectModuleImports m). intros l. revert g.
+  intros. unfold analyzeModuleDependencies_o. destruct (shadowed pr m); [reflexivity|].
+  generalize (collectModuleImports m). intros l. revert g.
   induction l as [|ii l IH]; intros g; simpl; auto. rewrite IH. apply analyze_import_o_nodes.
 Qed.
 
@@ -190,8 +192,17 @@ Proof.
 Qed.
 
 (* an import that falls through to the stdlib / third-party branch leaves the graph as it is *)
+(* a directory that does not exist holds no module *)
+Lemma no_dir_no_child : forall pr p n, dir_exists pr p = false -> mem_path (p ++ [n]) (module_names pr) = false.
+Proof.
+  intros pr p n Hd. destruct (mem_path (p ++ [n]) (module_names pr)) eqn:E; auto.
+  change (is_module pr (p ++ [n]) = true) in E. apply is_module_In in E. destruct E as [m [Hin Hm]].
+  assert (Hc : dir_exists pr p = true); [|congruence].
+  unfold dir_exists. apply existsb_exists. exists m. split; [exact Hin|]. rewrite Hm, strict_prefixb_snoc. reflexivity.
+Qed.
+
 Lemma external_import_no_edge : forall o pr m g ii p,
-  g_nodes g = module_names pr -> dirs_have_init pr = true -> p <> [] ->
+  g_nodes g = module_names pr -> (forall n, mem_path (p ++ [n]) (module_names pr) = false) ->
   init_file_exists pr p = false -> py_file_exists pr p = false ->
   fold_left (fun g r => if m_is_pkg m && strict_prefixb (m_path m) r then g else AddDependency g (m_path m) r)
     (if negb (shouldIncludeDependency o p) then [] else
@@ -202,7 +213,7 @@ Lemma external_import_no_edge : forall o pr m g ii p,
                                      end) (ii_names ii)) []
      else [p]) g = g.
 Proof.
-  intros o pr m g ii p Hn Hd Hp Hi Hf.
+  intros o pr m g ii p Hn Hchild Hi Hf.
   assert (Hnot : mem_path p (g_nodes g) = false).
   { rewrite Hn. change (is_module pr p = false). rewrite <- py_or_init. rewrite Hi, Hf. reflexivity. }
   assert (Hone : fold_left (fun g r => if m_is_pkg m && strict_prefixb (m_path m) r then g else AddDependency g (m_path m) r) [p] g = g).
@@ -214,13 +225,14 @@ Proof.
                                | None => if mem_path (p ++ [in_orig x]) (g_nodes g) then p ++ [in_orig x] else p
                                end) (ii_names ii) = map (fun _ => p) (ii_names ii)).
   { apply map_ext. intros x. unfold ResolveReExport_o. rewrite find_init_none by assumption.
-    rewrite Hn. rewrite no_init_no_child by assumption. reflexivity. }
+    rewrite Hn. rewrite Hchild. reflexivity. }
   rewrite Hmap. rewrite map_const_dedup; auto.
   apply andb_true_iff in Ef. destruct Ef as [_ Ef]. destruct (ii_names ii); simpl in Ef; [discriminate | discriminate || congruence].
 Qed.
 
 Lemma analyze_import_o_include : forall o o' pr m g ii,
-  o_rel o = o_rel o' -> o_excl o = o_excl o' -> g_nodes g = module_names pr -> dirs_have_init pr = true ->
+  o_rel o = o_rel o' -> o_excl o = o_excl o' -> g_nodes g = module_names pr ->
+  dirs_have_init pr = true \/ o_stdlib o = o_stdlib o' ->
   analyze_import_o o pr m g ii = analyze_import_o o' pr m g ii.
 Proof.
   intros o o' pr m g ii Hr He Hn Hd. unfold analyze_import_o. destruct (ii_tc ii); auto.
@@ -234,7 +246,8 @@ Proof.
     + unfold resolveAbsoluteImport_o.
       destruct (init_file_exists pr (a :: p')) eqn:Ei; [unfold shouldIncludeDependency; rewrite He; reflexivity|].
       destruct (py_file_exists pr (a :: p')) eqn:Ef; [unfold shouldIncludeDependency; rewrite He; reflexivity|].
-      assert (Hext : forall oo, fold_left (fun g r => if m_is_pkg m && strict_prefixb (m_path m) r then g else AddDependency g (m_path m) r)
+      assert (Hext : (forall n, mem_path ((a :: p') ++ [n]) (module_names pr) = false) ->
+                forall oo, fold_left (fun g r => if m_is_pkg m && strict_prefixb (m_path m) r then g else AddDependency g (m_path m) r)
                 (if negb (shouldIncludeDependency oo (a :: p')) then [] else
                  if ii_from ii && negb (Nat.eqb (length (ii_names ii)) 0)
                  then dedup_paths (map (fun x => match ResolveReExport_o pr (a :: p') (in_orig x) with
@@ -242,27 +255,33 @@ Proof.
                                                  | None => if mem_path ((a :: p') ++ [in_orig x]) (g_nodes g) then (a :: p') ++ [in_orig x] else a :: p'
                                                  end) (ii_names ii)) []
                  else [a :: p']) g = g).
-      { intros oo. apply external_import_no_edge; auto. discriminate. }
+      { intros Hchild oo. apply external_import_no_edge; auto. }
       destruct (isStandardLibrary (a :: p')).
-      * destruct (o_stdlib o), (o_stdlib o'); simpl; rewrite ?Hext; auto.
-      * destruct (o_third o), (o_third o'); simpl; rewrite ?Hext; auto.
+      * destruct Hd as [Hd|Hs].
+        -- assert (Hchild : forall n, mem_path ((a :: p') ++ [n]) (module_names pr) = false)
+             by (intro n; apply no_init_no_child; [assumption|discriminate|assumption]).
+           destruct (o_stdlib o), (o_stdlib o'); simpl; rewrite ?(Hext Hchild); auto.
+        -- rewrite Hs. unfold shouldIncludeDependency. rewrite He. reflexivity.
+      * destruct (dir_exists pr (a :: p')) eqn:Edir; [unfold shouldIncludeDependency; rewrite He; reflexivity|].
+        assert (Hchild : forall n, mem_path ((a :: p') ++ [n]) (module_names pr) = false)
+          by (intro n; apply no_dir_no_child; assumption).
+        destruct (o_third o), (o_third o'); simpl; rewrite ?(Hext Hchild); auto.
 Qed.
 
 Lemma module_include : forall o o' pr g m,
-  o_rel o = o_rel o' -> o_excl o = o_excl o' -> g_nodes g = module_names pr -> dirs_have_init pr = true ->
+  o_rel o = o_rel o' -> o_excl o = o_excl o' -> g_nodes g = module_names pr ->
+  dirs_have_init pr = true \/ o_stdlib o = o_stdlib o' ->
   analyzeModuleDependencies_o o pr g m = analyzeModuleDependencies_o o' pr g m.
 Proof.
-  intros o o' pr g m Hr He Hn Hd. unfold analyzeModuleDependencies_o.
+  intros o o' pr g m Hr He Hn Hd. unfold analyzeModuleDependencies_o. destruct (shadowed pr m); [reflexivity|].
   generalize (collectModuleImports m). intros l. revert g Hn.
   induction l as [|ii l IH]; intros g Hn; simpl; auto.
   rewrite (analyze_import_o_include o o') by assumption.
   apply IH. rewrite analyze_import_o_nodes. assumption.
 Qed.
 
-(* in a project without namespace packages the graph does not depend on IncludeStdLib / IncludeThirdParty:
-   the options concern modules outside the project, and the graph has project modules only *)
-Theorem include_options_irrelevant : forall o o' pr order,
-  o_rel o = o_rel o' -> o_excl o = o_excl o' -> dirs_have_init pr = true ->
+Lemma files_include : forall o o' pr order,
+  o_rel o = o_rel o' -> o_excl o = o_excl o' -> dirs_have_init pr = true \/ o_stdlib o = o_stdlib o' ->
   AnalyzeFiles_o o pr order = AnalyzeFiles_o o' pr order.
 Proof.
   intros o o' pr order Hr He Hd. unfold AnalyzeFiles_o.
@@ -273,18 +292,62 @@ Proof.
   apply IH. rewrite analyzeModuleDependencies_o_nodes. assumption.
 Qed.
 
-(* ... and it does for a namespace package: nsdir/left.py and nsdir/right.py import each other with
-   "from nsdir import ..." and there is no nsdir/__init__.py.  With the default options the cycle is in the
-   graph, with the options of `pyscn check --select deps` the graph is empty (F62, C11 F66) *)
+(* IncludeThirdParty never changes the graph, for every project (namespace packages included), every file order and
+   every value of the other options: the option concerns modules outside the project, and the graph has project modules
+   only.  (Before fix 8ba1334 "from nsdir import mod" was resolved through the third-party branch only: F62.) *)
+Theorem include_third_party_irrelevant : forall o o' pr order,
+  o_stdlib o = o_stdlib o' -> o_rel o = o_rel o' -> o_excl o = o_excl o' ->
+  AnalyzeFiles_o o pr order = AnalyzeFiles_o o' pr order.
+Proof. intros o o' pr order Hs Hr He. apply files_include; auto. Qed.
+
+(* in a project without namespace packages the graph does not depend on IncludeStdLib either (with a namespace
+   directory named like a standard-library package it does: the standard library's package wins over a namespace
+   package, so only IncludeStdLib makes "from xml import mod" reach xml/mod.py) *)
+Theorem include_options_irrelevant : forall o o' pr order,
+  o_rel o = o_rel o' -> o_excl o = o_excl o' -> dirs_have_init pr = true ->
+  AnalyzeFiles_o o pr order = AnalyzeFiles_o o' pr order.
+Proof. intros o o' pr order Hr He Hd. apply files_include; auto. Qed.
+
+Definition w_stdlib_namespace : project :=
+  [ Build_pymodule [stdlib_code_base; 2] false [] None;
+    Build_pymodule [5] false [Build_import_stmt (ImportFrom [stdlib_code_base] [Build_iname 2 2]) false PModule] None ]%N.
+
+Lemma include_stdlib_matters :
+  dirs_have_init w_stdlib_namespace = false /\
+  edges_model_o (Build_opts true false true []) w_stdlib_namespace = [([5], [stdlib_code_base; 2])]%N /\
+  edges_model_o (Build_opts false true true []) w_stdlib_namespace = [].
+Proof. repeat split; vm_compute; reflexivity. Qed.
+
+(* the former witness of F62 / C11 F66: nsdir/left.py and nsdir/right.py import each other with
+   "from nsdir import ..." and there is no nsdir/__init__.py.  The cycle is in the graph with the default options and
+   with the options of `pyscn check --select deps` (where it was missing before the fix) *)
 Definition w_namespace : project :=
   [ Build_pymodule [1; 2] false [Build_import_stmt (ImportFrom [1] [Build_iname 3 3]) false PModule] None;
     Build_pymodule [1; 3] false [Build_import_stmt (ImportFrom [1] [Build_iname 2 2]) false PModule] None ]%N.
 
-Lemma include_third_party_matters :
+Lemma namespace_cycle_found :
   dirs_have_init w_namespace = false /\
   edges_model_o default_opts w_namespace = [([1; 2], [1; 3]); ([1; 3], [1; 2])]%N /\
   edges_py w_namespace = [([1; 2], [1; 3]); ([1; 3], [1; 2])]%N /\
-  edges_model_o check_opts w_namespace = [].
+  edges_model_o check_opts w_namespace = edges_py w_namespace.
+Proof. repeat split; vm_compute; reflexivity. Qed.
+
+(* the graph `pyscn check --select deps` builds (include_third_party = false) is the graph of `pyscn analyze`, for every
+   project and file order; with the unbounded theorem: it is Python's graph for every well-formed project *)
+Theorem check_graph_is_analyze_graph : forall pr order,
+  AnalyzeFiles_o check_opts pr order = AnalyzeFiles_o default_opts pr order.
+Proof. intros pr order. apply include_third_party_irrelevant; reflexivity. Qed.
+
+Theorem check_edges_wf : forall pr, star_free pr = true -> wf_project pr = true ->
+  same_edges (edges_model_o check_opts pr) (edges_py pr) = true.
+Proof.
+  intros pr Hs Hw. unfold edges_model_o. rewrite check_graph_is_analyze_graph, (AnalyzeFiles_o_default pr pr Hs).
+  apply edges_wf. exact Hw.
+Qed.
+
+(* namespace packages are inside the well-formedness predicate now *)
+Lemma wf_admits_namespace :
+  wf_project w_namespace = true /\ project_shape_strict w_namespace = false /\ star_free w_namespace = true.
 Proof. repeat split; vm_compute; reflexivity. Qed.
 
 (* ---- witnesses of the other two recorded deviations of the second part ------------------------------ *)
